@@ -80,6 +80,8 @@ def run(ctx):
     ctx.do(rule_loop_flags_monotone, "C04.flag-back", ("stix2.base", "stix2.properties"))
     from .hidden_state import rule_no_hidden_state
     ctx.do(rule_no_hidden_state, "C04.history-independence")
+    from .pitfalls import rule_loops_not_cut_short
+    ctx.do(rule_loops_not_cut_short, "C04.loops-complete")
 
 
 def stores_self_switch(prog, cls):
